@@ -459,8 +459,8 @@ def run_shard(ctx, shard):
                 emit(ctx, {"sub": "cmp", "cfg": cfg, "field": field, "a": hx(a), "b": hx(b)}, not trivial(a, b))
     elif sub == "exp":
         bases = alpha.dedup([0, 1, 2, m - 1, (m - 1) // 2] + alpha.fillers(seed, "eb" + field, 2, m))
-        for w in (64, 256, 384):
-            for e in exponents(w, m, seed, tier):
+        for w in (64, 256, 384, 768):
+            for e in (exponents(w, m, seed, tier) if w != 768 else [m * m, 2**768 - 1, 2**384, 2**512 + 1, (m**2 - 1) // 2, 1]):
                 for a in bases:
                     emit(ctx, {"sub": "exp", "cfg": cfg, "field": field, "w": w, "a": hx(a), "e": hx(e)}, not trivial(a) and e > 1, "exp%d" % w)
             if ctx.out_of_time():
